@@ -161,6 +161,9 @@ thread_local! {
     static LAST_PANIC: std::cell::RefCell<Option<String>> = const { std::cell::RefCell::new(None) };
 }
 
+/// case numbers currently being executed (all worker threads)
+pub static INFLIGHT: Mutex<BTreeSet<u64>> = Mutex::new(BTreeSet::new());
+
 pub fn install_panic_hook() {
     std::panic::set_hook(Box::new(|info| {
         let loc = info.location().map_or_else(|| "?".to_string(), |l| format!("{}:{}", l.file(), l.line()));
@@ -172,6 +175,15 @@ pub fn install_panic_hook() {
             "<non-string panic>".to_string()
         };
         let line = format!("{loc}: {msg}");
+        // breadcrumb for the driver: a panic inside a rayon::spawn'ed closure of the library aborts the whole process
+        // (no unwinding, no verdict from this process); the driver turns the last line into a violation then
+        if let Ok(p) = std::env::var("RCV_PANIC_LOG") {
+            let inflight: Vec<u64> = INFLIGHT.try_lock().map(|g| g.iter().copied().collect()).unwrap_or_default();
+            let rec = json!({"where": loc, "message": msg.chars().take(300).collect::<String>(), "thread": std::thread::current().name().unwrap_or("?"), "cases_in_flight": inflight});
+            if let Ok(mut f) = std::fs::OpenOptions::new().create(true).append(true).open(p) {
+                let _ = std::io::Write::write_all(&mut f, format!("{rec}\n").as_bytes());
+            }
+        }
         LAST_PANIC.with(|c| *c.borrow_mut() = Some(line.clone()));
         let mut g = PANICS.lock().unwrap_or_else(std::sync::PoisonError::into_inner);
         if g.len() < 10_000 {
@@ -277,7 +289,9 @@ pub fn run_cases(ctx: &Ctx, n: u64, f: &(dyn Fn(&Ctx, u64, &mut Rng, &mut Report
                         rep.count("cases_with_early_index_flush", 1);
                         rep.set_add("index_flush_counts", n.to_string());
                     }
+                    let _ = INFLIGHT.lock().unwrap_or_else(std::sync::PoisonError::into_inner).insert(i + ctx.case_base);
                     let r = catch(|| f(ctx, i, &mut rng, &mut rep));
+                    let _ = INFLIGHT.lock().unwrap_or_else(std::sync::PoisonError::into_inner).remove(&(i + ctx.case_base));
                     set_flush(None);
                     if let Err(p) = r {
                         rep.violation(
